@@ -151,7 +151,10 @@ def createMonitor (sc : VScan) (prev : St) (obs : St) (t : Nat) : VScan := Id.ru
     let shift := specShift last members
     let twoWeeks := 14 * 24 * 3600 * 1000
     -- staleness is measured by the code with a 1 s look-ahead: ages in (2w - 1 s, 2w] are tolerated either way
-    if (shift || age > twoWeeks) && !created then sc := vfail sc s!"no checkpoint at t={t} although shift={shift} age={age}"
+    -- no bonded validator has a registered EVM address (all of them joined the bonded set a block or two ago): there is no set to
+    -- checkpoint (total power 0, outside C16's quantifier); the end blocker skips the block (C02 fix cae414c)
+    if members.isEmpty && !created then pure ()
+    else if (shift || age > twoWeeks) && !created then sc := vfail sc s!"no checkpoint at t={t} although shift={shift} age={age}"
     if (!shift && age + 1000 ≤ twoWeeks) && created then sc := vfail sc s!"checkpoint at t={t} although shift < 5 % and age={age}"
   | _, _ => if !created then sc := vfail sc "no checkpoint although none was saved"
   return sc
